@@ -16,8 +16,8 @@ CHECKS = [
              "admissibility predicate adm(shape) is what C12 proves of fitted models; known finding C11-edge excluded by its witness class",
      "not_covered": ["floating-point rounding of (m - c) + c in the additive identity", "coefficients outside adm(shape) (hand-written parameter files)"],
      },
-    {"id": "C12", "level": "proof", "modules": ["contracts.C12_refine"], "bounded": [],
-     "technique": "deductive verification: sidecar contracts on the real source, VCs by symbolic execution (pyvc), z3",
+    {"id": "C12", "level": "proof", "modules": ["contracts.C12_refine"], "bounded": ["bounded.C12_fits"],
+     "technique": "deductive verification: sidecar contracts on the real source, VCs by symbolic execution (pyvc), z3 + bounded real fits (admissibility and curve preservation of what the installed optimisers return)",
      "text": "Post-processing of the optimiser's result: for every raw vector inside the box the fit functions build and every "
              "temperature, the real _set_model_key/_refine_model/reduce_model/from_np_arrays chain yields named coefficients that "
              "satisfy the admissibility predicate adm(shape) (order, range, slope signs, smoothing range, type<->fields), and the "
@@ -33,8 +33,8 @@ CHECKS = [
      "note": "pandas aggregates (sum, var, quantile, autocorr, corr) are assumed contracts; floats as reals; known finding C16-safe-divide",
      "not_covered": ["numerical accuracy of pandas' var/autocorr/corr", "that X_predict equals what a later predict(baseline) rebuilds (needs a fit)"],
      },
-    {"id": "C04", "level": "proof", "modules": ["contracts.C04_gate"], "bounded": [],
-     "technique": "deductive verification: exceptional postconditions of the real fit/predict/from_dict guards (pyvc symbolic execution, z3)",
+    {"id": "C04", "level": "proof", "modules": ["contracts.C04_gate"], "bounded": ["bounded.C04_gate"],
+     "technique": "deductive verification: exceptional postconditions of the real fit/predict/from_dict guards (pyvc symbolic execution, z3) + bounded real fits on data with each sufficiency defect",
      "text": "For the daily, billing and hourly model the guards of fit() and predict() are verified in iff form over symbolic-length "
              "disqualification lists, symbolic override flags and uninterpreted timezone strings: fit raises DataSufficiencyError exactly "
              "when the data is disqualified and not overridden, appends the poor-fit disqualification exactly when the gate condition holds; "
